@@ -12,7 +12,7 @@ ID = "C19"
 ISOLATE = True  # end-to-end solver calls: run every case in a killable child
 RULE = ("case = generated database x hole mode (1 reads only in the neutral region, 2 reads everywhere but gene+pseudogene, "
         "3 covered locus but average depth below a raised min_avg_coverage, 4 reads over the pseudogene only, 5 empty neutral region, "
-        "6 control, 9 covered locus with min_avg_coverage a fraction of a read above the measured depth, 7 reads that end exactly at / start right after the locus, 8 reads only between gene and pseudogene) x route (profile BAM, profile file, user-supplied structure with/without a profile) x output format "
+        "10 empty neutral region with reads abutting it on both sides, 6 control, 9 covered locus with min_avg_coverage a fraction of a read above the measured depth, 7 reads that end exactly at / start right after the locus, 8 reads only between gene and pseudogene) x route (profile BAM, profile file, user-supplied structure with/without a profile) x output format "
         "(none, .aldy, .vcf, .simple, is_simple) x single/multi-gene call x optionally a healthy sample of the same file name genotyped first; non-trivial = modes 1-5; distinct = case JSON")
 ASSUMPTIONS = [
     "mode 4 is judged only for databases with a pseudogene and a whole-gene deletion allele and an estimated structure (the statement's wording)",
@@ -74,6 +74,11 @@ def run_case(case):
                 reads += sim.tile("gap", lo_, hi_, {}, rl, step)
     elif mode == 5:
         reads = sim.sample_reads(two, rl, step, skip=("neutral",))
+    elif mode == 10:
+        # like 5, plus reads that END at the last base before the neutral region and reads that START at the first base after it
+        reads = sim.sample_reads(two, rl, step, skip=("neutral",))
+        reads += sim.tile("abL", max(0, sim.cnr.start - 2 * rl), sim.cnr.start, {}, rl, step)
+        reads += sim.tile("abR", sim.cnr.end, sim.cnr.end + 2 * rl, {}, rl, step)
     elif mode == 9:
         reads = sim.sample_reads(two, rl, step)  # threshold set below, once the sample's depth is known
     else:
@@ -140,7 +145,7 @@ def run_case(case):
     text = open(outpath).read() if outpath else ""
     sols = [s for v in (res or {}).values() for s in v]
     viol = []
-    must_fail = mode in (1, 2, 3, 7, 8, 9) or (mode == 5 and not user_cn) or (mode == 4 and not has_p)
+    must_fail = mode in (1, 2, 3, 7, 8, 9) or (mode in (5, 10) and not user_cn) or (mode == 4 and not has_p)
     ngenes = 2 if case["multi"] else 1
     if must_fail:
         if sols:
@@ -185,7 +190,7 @@ def strategy(tier):
     return st.fixed_dictionaries({
         "db": dbs,
         "build": st.sampled_from(["hg19", "hg38"]),
-        "mode": st.sampled_from([1, 7, 2, 3, 8, 4, 4, 5, 6, 3, 7, 9, 9, 5]),
+        "mode": st.sampled_from([1, 7, 2, 3, 8, 4, 4, 5, 6, 3, 7, 9, 9, 5, 10, 10]),
         "prior": st.sampled_from([False, False, True]),
         "route": st.sampled_from(ROUTES),
         "out": st.sampled_from(OUTS),
